@@ -331,7 +331,12 @@ fn mini_histories(rep: &Report, prop: &str, b: &Bench, help: &Tree, src: &[u8]) 
                 rep.add("unchanged_rebuild_sources", 1);
                 // a target that this one source writes twice with different contents is rewritten by every run
                 // (each write sees the other's content): "already correct" is not defined for it
-                let multi = std::str::from_utf8(src).map(crate::model::temp_targets_rewritten_in_run).unwrap_or_default();
+                let multi: Vec<String> = std::str::from_utf8(src)
+                    .map(crate::model::temp_targets_rewritten_in_run)
+                    .unwrap_or_default()
+                    .into_iter()
+                    .map(|t| if t == LINK_TARGET.0 { LINK_TARGET.1.to_string() } else { t })
+                    .collect();
                 if !multi.is_empty() {
                     rep.add("sources_writing_one_temp_target_twice", 1);
                 }
